@@ -65,6 +65,8 @@ Section PointCloud.
     | [] => Raise ValueError
     | _ =>
       if almost_zero axis then Raise ValueError else
+      (* np.percentile: "Percentiles must be in the range [0, 100]" *)
+      if nltb O q (n0 O) || nltb O (nofZ O 100) q then Raise ValueError else
       let a := vnormalize O axis in
       let coords := map (fun p => vdot O p a) ps in
       let sel := percentile_value coords q in
